@@ -25,5 +25,10 @@ def main(run):
     if want(run, 'P') or want(run, 'T'):
       with anchored(run, 'C02/P'):
         deductive(run)
+    if want(run, 'F'):
+      with anchored(run, 'C02/F'):
+        # the observables of this property are (or read) memoised values: no covered mutator leaves one of them stale (engine F restricted to the keys these observables read)
+        from checks.fpart import run_F
+        run_F(run, entry_points=['__format__', '__str__', 'smiles_atoms_order', 'atoms_order'])
     bounded_part(run, 'C02')
     return FINISH
